@@ -561,3 +561,13 @@ obl('C05.NATIVE-HISTORY', 'registry public API (register, unregister, dispatcher
 for _p in ('C05', 'C02'):
     PROPS[_p]['units'] = PROPS[_p]['units'] + ['native_c05_hist']
     PROPS[_p]['trusted'] = PROPS[_p]['trusted'] + ['native stand-in C05.NATIVE-HISTORY is an execution of one bounded history, not a proof; it exists for trees whose restructured code is beyond CBMC\'s budget and Verus\' anchors']
+
+PROPS['C02']['technique'] = 'per-operation function contracts on the real mutators and dispatcher from an arbitrary bounded-shape registry state (Kani/CBMC) + unbounded Verus contracts of the mutators on the extracted text (single publication iff changed, id monotone) + bounded native history stand-in'
+PROPS['C04']['technique'] = 'function contract of Prev::execute (complete, Kani) + ordering contract of the first registration checked at the instant of each sigaction call (Kani, bounded state shape) + Verus: published slot keeps / carries the prev of Slot::new (unbounded)'
+PROPS['C14']['technique'] = 'checks-before-effects contracts on every checked entry point over all c_int (Kani/CBMC) + Verus: nothing published at either early return of register_unchecked_impl (unbounded)'
+PROPS['C01']['technique'] = PROPS['C01']['technique'] + ' + Verus: composition lemma L-RCU and single-publication contract of the mutators'
+PROPS['C10']['technique'] = 'per-operation function contracts (set-only store, atomic test-and-clear, scan index = signal, channel FIFO) on the real backend.rs / exfiltrators / channel.rs, Kani/CBMC'
+PROPS['C11']['technique'] = 'trace contracts under a monotonically havoc-ed closed flag (close() on another thread at any instant) on the real backend.rs, Kani/CBMC'
+PROPS['C13']['technique'] = 'trace contracts against a libc model with a ghost descriptor (valid / socket / O_NONBLOCK) on the real pipe.rs, all fds / errnos, Kani/CBMC'
+PROPS['C15']['technique'] = 'function contracts of the action closures built by the real flag::register* (captured through a registry stub), all values / statuses, Kani/CBMC'
+PROPS['C16']['technique'] = 'call-sequence contract of emulate_default_handler against a transcribed signal(7) table, all c_int, Kani/CBMC'
